@@ -388,6 +388,25 @@ func GoNamed(name string, f func()) *Thread {
 	return t
 }
 
+// LiveLibraryThreads lists the threads started by the code under test (a
+// rewritten go statement: they carry no name) that have not run to completion
+// at this moment. Under the cooperative scheduler a thread that has performed
+// its last synchronisation operation keeps running up to its exit before any
+// other thread is resumed, so "not finished" means it still has a
+// synchronisation operation ahead of it. Empty in Free mode.
+func LiveLibraryThreads() []string {
+	if mode != Controlled || sc.dead {
+		return nil
+	}
+	var out []string
+	for _, t := range sc.threads {
+		if t != sc.cur && t.name == "" && !t.finished {
+			out = append(out, fmt.Sprintf("%d@%s", t.id, t.pend.kind))
+		}
+	}
+	return out
+}
+
 // Join blocks until t has finished.
 func (t *Thread) Join() {
 	if mode != Controlled {
